@@ -148,6 +148,15 @@ class C04(Property):
             h = hexs(data)
             cases.append(Case("lines " + h, corr=False, tags=(tag,)))
             cases.append(Case("enc " + h, prop=False, tags=("enc-" + tag,)))
+        # short source lines that the encoder expands into very long ones: a slider with thousands of spans and no node lists
+        # (the encoder writes every node's sounds and sample sets: ~6 bytes per node)
+        for spans in ([9000, 5461] if tier == "quick" else [9000, 8999, 7000, 6000, 5462, 5461, 5460, 4000, 2731, 1366]):
+            for mode in ((0,) if tier == "quick" else (0, 2, 3)):
+                ls = ["osu file format v14", "", "[General]", f"Mode: {mode}", "", "[TimingPoints]", "0,500,4,2,0,60,1,0", "", "[HitObjects]",
+                      "64,64,500,1,0,0:0:0:0:", f"100,100,1000,2,2,L|200:100,{spans},100,,,2:3:0:0:", "300,300,999999999,1,0,0:0:0:0:"]
+                h = hexs("\n".join(ls).encode())
+                cases.append(Case("lines " + h, corr=False, tags=("long-line",)))
+                cases.append(Case("enc " + h, prop=False, tags=("enc-long-line",)))
         for f, d in (small_bundled() if tier == "quick" else bundled()):
             cases.append(Case("lines " + hexs(d), corr=False, tags=("bundled",)))
             cases.append(Case("enc " + hexs(d), prop=False, tags=("bundled",)))
